@@ -719,3 +719,35 @@ Proof.
   eexists; split; [reflexivity|].
   unfold validate in Hv. apply validate_nil in Hv. destruct Hv as [Hacc _]. apply (accepted_usable _ _ _ Hacc).
 Qed.
+
+(* ====================================================================================================
+   EXTENSION 3 — the feature-gate annotation, as a raw string
+   ==================================================================================================== *)
+(* admission and the gateway's syncFeatureGate decide alike on every raw annotation value *)
+Lemma admit_gate_sync_gate raw : admit_gate raw = sync_gate raw.
+Proof. destruct raw as [[|a r]|]; reflexivity. Qed.
+
+Lemma gate_fact_admit raw : admit_gate raw = negb (gatefact_eqb (gate_of_raw raw) GBad).
+Proof. destruct raw as [[|a r]|]; simpl; try reflexivity. destruct (gate_accepts (String a r)); reflexivity. Qed.
+
+(* for every raw annotation value: an object carrying it that is admitted is applied by the gateway, and in
+   particular the gateway's own parse of the same raw value succeeds *)
+Lemma featuregate_annotation_sound raw pick f :
+  f_gate f = gate_of_raw raw -> oracle_laws f = true -> validate pick f = VErrs [] ->
+  admit_gate raw = true /\ sync_gate raw = true /\ apply_gateway f = Ok.
+Proof.
+  intros Hraw Hlaws Hv.
+  destruct (sound pick f Hlaws Hv) as (Hg & _ & _).
+  unfold validate in Hv. apply validate_nil in Hv. destruct Hv as [_ Hgate].
+  assert (Ha : admit_gate raw = true).
+  { rewrite gate_fact_admit, <- Hraw. destruct (f_gate f); [reflexivity|reflexivity|congruence]. }
+  split; [exact Ha|]. split; [rewrite <- admit_gate_sync_gate; exact Ha|exact Hg].
+Qed.
+
+(* conversely a raw value the gateway's parser refuses is refused by admission, whatever the rest of the object *)
+Lemma featuregate_annotation_rejected raw fixd pick f :
+  f_gate f = gate_of_raw raw -> sync_gate raw = false -> validate_gen fixd pick f <> VErrs [].
+Proof.
+  intros Hraw Hs Hv. apply validate_nil in Hv. destruct Hv as [_ Hgate].
+  rewrite <- admit_gate_sync_gate, gate_fact_admit, <- Hraw in Hs. destruct (f_gate f); [discriminate|discriminate|congruence].
+Qed.
